@@ -183,7 +183,7 @@ def run_check(pid, tier, seed, t0):
         if kf is not None:
             if id(kf) not in known_hit:
                 known_hit.add(id(kf))
-                lines.append("KNOWN-FINDING: property=%s %s" % (pid, kf["what"]))
+                lines.append("KNOWN-FINDING: property=%s %s" % (kf["property"], kf["what"]))
             continue
         if dedupe in seen_names:
             continue
@@ -212,6 +212,8 @@ def run_check(pid, tier, seed, t0):
     # known findings that are listed but were not observed this run: verify the
     # witness natively so a stale entry is visible (it suppresses nothing)
     for f in findings:
+        if f.get("property") != pid:
+            continue
         if id(f) not in known_hit and f.get("witness_cmd"):
             rc = subprocess.call(f["witness_cmd"], shell=True, cwd=VERIF,
                                  stdout=subprocess.DEVNULL, stderr=subprocess.DEVNULL,
@@ -301,7 +303,10 @@ def load_findings(pid):
     if not os.path.exists(path):
         return []
     data = json.load(open(path))
-    return [f for f in data.get("findings", []) if f.get("property") == pid]
+    # a finding is recorded under ONE property but its function may lie in the
+    # verification cone of others: the region exclusion applies wherever that
+    # function is verified
+    return list(data.get("findings", []))
 
 
 def match_finding(findings, pid, t, x, rep):
